@@ -78,3 +78,18 @@ CLAIMS["C31"] = _fn("exploration", "structured cases per grammar (sat integer/de
 CLAIMS["C32"] = _fn("exploration", "boundary (26^k sums +-1, RESERVED +-1, u128::MAX) and random runes with random spacer masks: TLC checks with BigNat that the printed name denotes the integer under modified base-26, parse(print) is the identity, the commitment is the little-endian encoding without trailing zeros, reserved <=> >= first 27-letter name, spacers print/parse with those past the last letter dropped")
 CLAIMS["C33"] = _fn("exploration", "for all five networks TLC checks on recorded minimum_at_height values: non-increasing over consecutive heights (windows around every step; thorough: all 210,006 heights), <= first 13-letter name at the first rune block, zero once the schedule completes, and for boundary/random names that unlock_height is the first height whose minimum is at or below the name (reserved names never unlock)")
 CLAIMS["C34"] = _fn("exploration", "u128 boundary (10^k +-1, u128::MAX) and random amounts x divisibilities 0..38: TLC checks the printed digits against the exact quotient/remainder, that parsing the printed number gives value/scale denoting it and that to_integer returns the amount")
+
+ENGINES.append({"name": "settings", "path": "spec/Settings.tla", "serves_properties": ["C36"],
+                "kind_free_text": "TLA+ definition of the precedence law (Merge); SettingsModel enumerates every presence subset; SettingsTrace validates recorded Settings::merge results for every key"})
+CLAIMS["C36"] = {"engine": "settings", "level": "model_checking",
+                 "text": "the space is finite: TLC enumerates every presence subset per key kind and checks the stated law on Merge; every settings key x every subset of sources x two value rotations is run through the real Options parser and Settings::merge (flag, ORD_ environment map, ord.yaml) and TLC requires the resulting value to equal Merge",
+                 "note": "trusted: TLC, the harness; config/config_dir themselves and the chain alias flags (--regtest etc.) are not varied; defaults are observed from the no-source row",
+                 "technique": "exhaustive enumeration judged by a TLA+ definition (SettingsModel + SettingsTrace)"}
+CLAIMS["C15"] = _lt("C15", "; the same scenarios are indexed under several index-flag sets (thorough: 8 sets plus signet chains whose first 112,402 blocks are header-only so that spent values are fetched from the node) and TLC additionally requires the inscription fields named by the property and all rune entries/balances to agree between flag sets (history variable ref)")
+
+ENGINES.append({"name": "runestone", "path": "spec/Runestone.tla", "serves_properties": ["C25"],
+                "kind_free_text": "TLA+ definition of runestone deciphering over BigNat integers (fields, delta-encoded edicts, flags, flaw classes and precedence, what a cenotaph keeps); RunestoneTrace validates the real Runestone::decipher / encipher against it"})
+CLAIMS["C25"] = {"engine": "runestone", "level": "exploration",
+                 "text": "the real Runestone::decipher is run on transactions whose payload encodes enumerated and structured-random integer sequences and on script-level classes; TLC computes Decipher(ints, outputs) from the specification-level definition (spec/Runestone.tla) and requires exact equality of the artifact (kind, flaw by the documented precedence, edicts, etching fields, mint, pointer, what a cenotaph keeps); random well-formed runestones are enciphered and must decipher back with edicts in rune-id order; random payload bytes for totality",
+                 "note": "trusted: TLC, the harness script/transaction builder; the byte-level varint layer is C26; integer sequences are enumerated over class alphabets, not all u128 values",
+                 "technique": "TLA+ definition of deciphering (BigNat) + TLC trace validation of the real decipher/encipher on enumerated integer sequences"}
